@@ -371,4 +371,296 @@ theorem run_eq_ref {T : Tables} (hT : TablesOK T) (cfg : Cfg) (chunks : List Byt
       · rename_i s hs
         exact finish_eq_ref hT s (runChunks_ctl cfg _ _ s CtlInv.init hs)
 
+/-- position fields -/
+def St.at (s : St) : Nat × Nat × Int := (s.line, s.pos, s.nl)
+
+/-- the position an error raised in state `s` carries -/
+def Err.isAt (e : Err) (s : St) : Prop := e.line = s.line ∧ e.col = (s.pos : Int) - s.nl
+
+theorem Except.bind_err {ε α β : Type} {x : Except ε α} {f : α → Except ε β} {e : ε}
+    (h : (x >>= f) = .error e) : x = .error e ∨ ∃ a, x = .ok a ∧ f a = .error e := by
+  cases x with
+  | error e' => left; cases h; rfl
+  | ok a => right; exact ⟨a, rfl, h⟩
+
+theorem St.add_at (s : St) (v : JV) :
+    (∀ s', s.add v = .ok s' → s'.at = s.at) ∧ (∀ e, s.add v = .error e → e.isAt s) := by
+  unfold St.add
+  split
+  · constructor
+    · intro s' h; cases h; rfl
+    · intro e h; cases h
+  · constructor
+    · intro s' h; cases h
+    · intro e h; cases h; exact ⟨rfl, rfl⟩
+
+theorem St.flushNum_at (T : Tables) (s : St) :
+    (∀ s', s.flushNum T = .ok s' → s'.at = s.at) ∧ (∀ e, s.flushNum T = .error e → e.isAt s) := by
+  unfold St.flushNum
+  split
+  · exact St.add_at _ _
+  · constructor
+    · intro s' h; cases h; rfl
+    · intro e h; cases h
+
+theorem St.popObj_at (s : St) (rest : List Bool) :
+    (∀ s', s.popObj rest = .ok s' → s'.at = s.at) ∧ (∀ e, s.popObj rest = .error e → e.isAt s) := by
+  unfold St.popObj
+  split
+  · constructor
+    · intro s' h; cases h
+    · intro e h; cases h; exact ⟨rfl, rfl⟩
+  · exact St.add_at _ _
+
+theorem St.popArr_at (s : St) (rest : List Bool) :
+    (∀ s', s.popArr rest = .ok s' → s'.at = s.at) ∧ (∀ e, s.popArr rest = .error e → e.isAt s) := by
+  unfold St.popArr
+  split
+  · constructor
+    · intro s' h; cases h
+    · intro e h; cases h; exact ⟨rfl, rfl⟩
+  · exact St.add_at _ _
+
+theorem Err.isAt_of_at {e : Err} {s s' : St} (h : e.isAt s') (hs : s'.at = s.at) : e.isAt s := by
+  unfold St.at at hs
+  simp only [Prod.mk.injEq] at hs
+  obtain ⟨h1, h2, h3⟩ := hs
+  exact ⟨h.1.trans h1, by rw [h.2, h2, h3]⟩
+
+theorem stepToken_at (T : Tables) (s : St) (b : UInt8) :
+    (∀ s', stepToken T s b = .ok s' → s'.at = s.at) ∧ (∀ e, stepToken T s b = .error e → e.isAt s) := by
+  unfold stepToken
+  simp only
+  constructor
+  · intro s' h
+    repeat' split at h
+    all_goals first
+      | (cases h; rfl)
+      | (cases h)
+      | (have := (St.add_at _ _).1 s' h; exact this)
+  · intro e h
+    repeat' split at h
+    all_goals first
+      | (cases h; exact ⟨rfl, rfl⟩)
+      | (cases h)
+      | (have := (St.add_at _ _).2 e h; exact this)
+
+
+def isNlAct (a : Act) : Bool := a == .skipNewline || a == .numNewline
+
+theorem stepAct_err_at (T : Tables) (cfg : Cfg) (s : St) (b : UInt8) (e : Err)
+    (h : stepAct T cfg s b = .error e) : e.isAt s := by
+  unfold stepAct at h
+  split at h
+  case h_8 =>  -- numComma
+    rcases Except.bind_err h with h | ⟨s1, h1, h⟩
+    · exact (St.add_at _ _).2 e h
+    · have hat := (St.add_at _ _).1 s1 h1
+      split at h
+      · cases h; exact Err.isAt_of_at ⟨rfl, rfl⟩ hat
+      · cases h
+  case h_12 =>  -- closeObject
+    split at h
+    · split at h
+      · cases h; exact ⟨rfl, rfl⟩
+      · rcases Except.bind_err h with h | ⟨s1, h1, h⟩
+        · exact (St.flushNum_at _ _).2 e h
+        · have hat := (St.flushNum_at _ _).1 s1 h1
+          rcases Except.bind_err h with h | ⟨s2, h2, h⟩
+          · exact Err.isAt_of_at ((St.popObj_at _ _).2 e h) hat
+          · cases h
+    · cases h; exact ⟨rfl, rfl⟩
+  case h_18 =>  -- closeArray
+    split at h
+    · rcases Except.bind_err h with h | ⟨s1, h1, h⟩
+      · exact (St.flushNum_at _ _).2 e h
+      · have hat := (St.flushNum_at _ _).1 s1 h1
+        rcases Except.bind_err h with h | ⟨s2, h2, h⟩
+        · exact Err.isAt_of_at ((St.popArr_at _ _).2 e h) hat
+        · cases h
+    · cases h; exact ⟨rfl, rfl⟩
+  case h_25 =>  -- strQuote
+    split at h
+    · cases h
+    · rcases Except.bind_err h with h | ⟨s1, h1, h⟩
+      · have := (St.add_at _ _).2 e h; exact this
+      · cases h
+  case h_29 =>  -- numSpc
+    rcases Except.bind_err h with h | ⟨s1, h1, h⟩
+    · exact (St.add_at _ _).2 e h
+    · cases h
+  case h_30 =>  -- numNewline
+    rcases Except.bind_err h with h | ⟨s1, h1, h⟩
+    · exact (St.add_at _ _).2 e h
+    · cases h
+  case h_34 =>  -- tokenOk
+    rcases Except.bind_err h with h | ⟨s1, h1, h⟩
+    · exact (stepToken_at _ _ _).2 e h
+    · cases h
+  case h_35 =>  -- charErr
+    cases h; exact ⟨rfl, rfl⟩
+  all_goals (cases h)
+
+
+/-- effect of one `stepAct` on the position fields: the offset is untouched; a newline action
+records the offset as the last newline and bumps the line; every other action leaves both alone -/
+theorem stepAct_ok_at (T : Tables) (cfg : Cfg) (s s' : St) (b : UInt8) (c : Bool)
+    (h : stepAct T cfg s b = .ok (s', c)) :
+    s'.pos = s.pos ∧
+    (isNlAct (T.act s.mode b) = true → s'.line = s.line + 1 ∧ s'.nl = s.pos) ∧
+    (isNlAct (T.act s.mode b) = false → s'.line = s.line ∧ s'.nl = s.nl) := by
+  unfold stepAct at h
+  split at h <;> rename_i hact <;> rw [hact] <;> simp only [isNlAct]
+  case h_8 =>  -- numComma
+    obtain ⟨s1, h1, h⟩ := Except.bind_ok h
+    have hat := (St.add_at _ _).1 s1 h1
+    simp only [St.at, Prod.mk.injEq] at hat
+    split at h
+    · cases h
+    · simp only [pure, Except.pure, Except.ok.injEq, Prod.mk.injEq] at h; obtain ⟨rfl, rfl⟩ := h
+      simp [hat]
+  case h_12 =>  -- closeObject
+    split at h
+    · split at h
+      · cases h
+      · obtain ⟨s1, h1, h⟩ := Except.bind_ok h
+        obtain ⟨s2, h2, h⟩ := Except.bind_ok h
+        have hat1 := (St.flushNum_at _ _).1 s1 h1
+        have hat2 := (St.popObj_at _ _).1 s2 h2
+        simp only [St.at, Prod.mk.injEq] at hat1 hat2
+        simp only [pure, Except.pure, Except.ok.injEq, Prod.mk.injEq] at h; obtain ⟨rfl, rfl⟩ := h
+        simp [hat1, hat2]
+    · cases h
+  case h_18 =>  -- closeArray
+    split at h
+    · obtain ⟨s1, h1, h⟩ := Except.bind_ok h
+      obtain ⟨s2, h2, h⟩ := Except.bind_ok h
+      have hat1 := (St.flushNum_at _ _).1 s1 h1
+      have hat2 := (St.popArr_at _ _).1 s2 h2
+      simp only [St.at, Prod.mk.injEq] at hat1 hat2
+      simp only [pure, Except.pure, Except.ok.injEq, Prod.mk.injEq] at h; obtain ⟨rfl, rfl⟩ := h
+      simp [hat1, hat2]
+    · cases h
+  case h_25 =>  -- strQuote
+    split at h
+    · simp only [Except.ok.injEq, Prod.mk.injEq] at h; obtain ⟨rfl, rfl⟩ := h; simp
+    · obtain ⟨s1, h1, h⟩ := Except.bind_ok h
+      have hat := (St.add_at _ _).1 s1 h1
+      simp only [St.at, Prod.mk.injEq] at hat
+      simp only [pure, Except.pure, Except.ok.injEq, Prod.mk.injEq] at h; obtain ⟨rfl, rfl⟩ := h
+      simp [hat]
+  case h_29 =>  -- numSpc
+    obtain ⟨s1, h1, h⟩ := Except.bind_ok h
+    have hat := (St.add_at _ _).1 s1 h1
+    simp only [St.at, Prod.mk.injEq] at hat
+    simp only [pure, Except.pure, Except.ok.injEq, Prod.mk.injEq] at h; obtain ⟨rfl, rfl⟩ := h
+    simp [hat]
+  case h_30 =>  -- numNewline
+    obtain ⟨s1, h1, h⟩ := Except.bind_ok h
+    have hat := (St.add_at _ _).1 s1 h1
+    simp only [St.at, Prod.mk.injEq] at hat
+    simp only [pure, Except.pure, Except.ok.injEq, Prod.mk.injEq] at h; obtain ⟨rfl, rfl⟩ := h
+    simp [hat]
+  case h_34 =>  -- tokenOk
+    obtain ⟨s1, h1, h⟩ := Except.bind_ok h
+    have hat := (stepToken_at _ _ _).1 s1 h1
+    simp only [St.at, Prod.mk.injEq] at hat
+    simp only [pure, Except.pure, Except.ok.injEq, Prod.mk.injEq] at h; obtain ⟨rfl, rfl⟩ := h
+    simp [hat]
+  case h_35 => cases h
+  all_goals (simp only [Except.ok.injEq, Prod.mk.injEq] at h; obtain ⟨rfl, rfl⟩ := h; simp)
+
+
+/-- line / offset / last-newline bookkeeping as a fold over the bytes consumed: this is the reading
+of "line and column" the property gives (lines end at '\n', columns count bytes) -/
+def track : Nat × Nat × Int → Bytes → Nat × Nat × Int
+  | t, [] => t
+  | (line, pos, nl), b :: r => if b = 10 then track (line + 1, pos + 1, (pos : Int)) r else track (line, pos + 1, nl) r
+
+theorem track_append (t : Nat × Nat × Int) (a b : Bytes) : track t (a ++ b) = track (track t a) b := by
+  induction a generalizing t with
+  | nil => rfl
+  | cons x r ih =>
+    obtain ⟨l, p, n⟩ := t
+    simp only [List.cons_append, track]
+    split <;> exact ih _
+
+theorem nlAct_iff (m : Mode) (b : UInt8) (h : expected m b ≠ .charErr) :
+    isNlAct (expected m b) = decide (b = 10) := by
+  have := forall_mode_byte (fun m b => expected m b == .charErr || isNlAct (expected m b) == decide (b = 10))
+    (by decide +kernel) m b
+  simpa [h] using this
+
+theorem deliver_at (T : Tables) (cfg : Cfg) (s : St) : (deliver T cfg s).at = s.at := by
+  unfold deliver; split <;> rfl
+
+theorem step_err_at (T : Tables) (cfg : Cfg) (s : St) (b : UInt8) (e : Err)
+    (h : step T cfg s b = .error e) : e.isAt s := by
+  unfold step at h
+  split at h
+  · rename_i e' h1; cases h; exact stepAct_err_at T cfg s b _ h1
+  · cases h
+
+theorem step_ok_at (cfg : Cfg) (s s' : St) (b : UInt8) (h : step refTables cfg s b = .ok s') :
+    s'.at = track s.at [b] := by
+  unfold step at h
+  split at h
+  · cases h
+  · rename_i s1 c h1
+    have hne : expected s.mode b ≠ .charErr := by
+      intro hc
+      unfold stepAct at h1
+      have : refTables.act s.mode b = .charErr := hc
+      rw [this] at h1
+      cases h1
+    have hnl := nlAct_iff s.mode b hne
+    obtain ⟨hp, hy, hn⟩ := stepAct_ok_at refTables cfg s s1 b c h1
+    simp only [Except.ok.injEq] at h
+    subst h
+    have hd : (if c = true then s1 else deliver refTables cfg s1).at = s1.at := by
+      split
+      · rfl
+      · exact deliver_at _ _ _
+    simp only [St.at, Prod.mk.injEq] at hd ⊢
+    simp only [track]
+    by_cases hb : b = 10
+    · have := hy (by rw [show refTables.act s.mode b = expected s.mode b from rfl, hnl]; simp [hb])
+      simp [hb, hd, hp, this]
+    · have := hn (by rw [show refTables.act s.mode b = expected s.mode b from rfl, hnl]; simp [hb])
+      simp [hb, hd, hp, this]
+
+theorem runBytes_ok_at (cfg : Cfg) (bs : Bytes) (s s' : St) (h : runBytes refTables cfg s bs = .ok s') :
+    s'.at = track s.at bs := by
+  induction bs generalizing s with
+  | nil => cases h; rfl
+  | cons b r ih =>
+    simp only [runBytes] at h
+    split at h
+    · cases h
+    · rename_i s1 h1
+      rw [ih s1 h, step_ok_at cfg s s1 b h1]
+      exact (track_append s.at [b] r).symm
+
+/-- where the reference automaton stops: the bytes before the stop were all accepted, the error is
+raised by the step on byte `b`, and it carries the line/column of `b` -/
+theorem runBytes_err_at (cfg : Cfg) (bs : Bytes) (s : St) (e : Err) (h : runBytes refTables cfg s bs = .error e) :
+    ∃ pre b post s1, bs = pre ++ b :: post ∧ runBytes refTables cfg s pre = .ok s1 ∧
+      step refTables cfg s1 b = .error e ∧
+      e.line = (track s.at pre).1 ∧ e.col = ((track s.at pre).2.1 : Int) - (track s.at pre).2.2 := by
+  induction bs generalizing s with
+  | nil => cases h
+  | cons b r ih =>
+    simp only [runBytes] at h
+    split at h
+    · rename_i e' h1
+      cases h
+      have := step_err_at refTables cfg s b _ h1
+      exact ⟨[], b, r, s, rfl, rfl, h1, this.1, this.2⟩
+    · rename_i s1 h1
+      obtain ⟨pre, b', post, s2, hbs, hrun, hstep, hl, hc⟩ := ih s1 h
+      refine ⟨b :: pre, b', post, s2, by rw [hbs]; rfl, ?_, hstep, ?_, ?_⟩
+      · simp only [runBytes, h1]; exact hrun
+      · rw [hl, step_ok_at cfg s s1 b h1, ← track_append]; rfl
+      · rw [hc, step_ok_at cfg s s1 b h1, ← track_append]; rfl
+
 end OjgVerif.Json
